@@ -72,6 +72,51 @@ func (u *Unit) tableCall(st *State, instr ssa.Instruction, common *ssa.CallCommo
 func (u *Unit) lockEffects(st *State, c *Contract, name string, args []Term, pos token.Pos)      {}
 func (u *Unit) guardedAccess(st *State, x *ssa.FieldAddr, structT types.Type, field int, r Term) {}
 func (u *Unit) guardedMapAccess(st *State, m ssa.Value, pos token.Pos, write bool)               {}
-func (u *Unit) initGhost(st *State)                                                              {}
-func (u *Unit) ghostAt(st *State, b *ssa.BasicBlock, where string)                               {}
-func (u *Unit) checkLockBalance(st *State, pos token.Pos)                                        {}
+
+// initGhost declares the ghost variables of the contract with their initial values.
+func (u *Unit) initGhost(st *State) {
+	if u.contract == nil {
+		return
+	}
+	for _, gv := range u.contract.GhostVars {
+		sort := map[string]string{"int": SInt, "bool": SBool, "string": SStr, "intarray": arraySort(SInt, SInt),
+			"strarray": arraySort(SInt, SStr), "boolarray": arraySort(SInt, SBool)}[gv.Sort]
+		if sort == "" {
+			panic(evalErr{"ghostvar " + gv.Name + ": unknown sort " + gv.Sort})
+		}
+		n := "ghost_" + sanitize(gv.Name)
+		u.pre.declConst(n, sort)
+		t := mk(n, sort)
+		if gv.Sort == "int" {
+			t.T = types.Typ[types.Int]
+		}
+		st.ghost[gv.Name] = t
+		if gv.Init != nil {
+			ctx := u.newCtx(st, nil)
+			st.assume(eq(t, ctx.eval(gv.Init)))
+		}
+	}
+}
+
+// ghostAt executes the ghost updates attached to a program point.
+func (u *Unit) ghostAt(st *State, b *ssa.BasicBlock, where string) {}
+
+func (u *Unit) ghostUpdates(st *State, where string, ctx *EvalCtx) {
+	if u.contract == nil {
+		return
+	}
+	for _, g := range u.contract.Ghosts {
+		if g.At != where {
+			continue
+		}
+		cur, ok := st.ghost[g.Var]
+		if !ok {
+			panic(evalErr{"ghost update of undeclared variable " + g.Var})
+		}
+		v := ctx.eval(g.Expr)
+		nv := u.define(st, "ghost_"+g.Var, mkT(v.S, cur.Sort, cur.T))
+		nv.T = cur.T
+		st.ghost[g.Var] = nv
+	}
+}
+func (u *Unit) checkLockBalance(st *State, pos token.Pos) {}
